@@ -22,6 +22,8 @@ RULE = ("Cases = (kind, matrix): 'bin' 0/1 graphs (complete enumeration of label
         "weighted kinds additionally need a pair with >= 2 distinct minimum-length paths. Distinct by hash of (kind, matrix).")
 BOUNDS = {"exhaustive_quick": "digraphs n<=4, graphs n<=5", "exhaustive_thorough": "digraphs n<=5, graphs n<=7",
           "random_n": "2..12 quick, 2..30 thorough", "rtol_irrational": 1e-12}
+# units additionally driven by libFuzzer coverage feedback through hypothesis.fuzz_one_input (bctverif/fuzz.py)
+FUZZ_UNITS = {"quick": ["random-lengths"], "thorough": ["random-lengths"]}
 MIN_NONTRIVIAL = {"quick": 300, "thorough": 3000}
 
 INF = float("inf")
